@@ -155,6 +155,12 @@ class Rec:
                  "extra")
 
 
+# symbolic pids: "a pid that is also the path of an existing regular file" (two twin files with equal content).
+# The token is replaced by the absolute path of the file at execution time; {"op": "pidfile", "i", "what"} edits /
+# removes / re-creates the file the pid names (the store must not care: identifiers are opaque strings).
+PIDFILE = ["@@PIDFILE0@@", "@@PIDFILE1@@"]
+
+
 class Run:
     """Executes a case step by step on a real store and on the model."""
 
@@ -171,6 +177,7 @@ class Run:
                        for i, b in enumerate(self.contents)]
         self.dpaths = [common.write_file(os.path.join(self.src, f"d{i}"), b)
                        for i, b in enumerate(self.docs)]
+        self.pidfiles = [common.write_file(os.path.join(self.src, f"pidfile{i}"), b"twin pid file\n") for i in range(2)]
         self.factory = store_factory or (lambda: common.make_store(self.root, self.cfg))
         self.store = self.factory()
         self.stores = {0: self.store}  # op["inst"] selects another instance on the same directory
@@ -226,10 +233,16 @@ class Run:
                 pass
         self.open_streams = []
 
+    def rp(self, pid):
+        """Resolve a symbolic pid."""
+        return self.pidfiles[PIDFILE.index(pid)] if pid in PIDFILE else pid
+
     # --- one step ---------------------------------------------------------------------------
     def step(self, op):
         r = Rec()
         r.i, r.op, r.skipped, r.extra = len(self.recs), op, False, {}
+        if op.get("pid") in PIDFILE:
+            op = dict(op, pid=self.rp(op["pid"]))
         r.before = self.alpha
         r.model_before = self.model.copy()
         inst = op.get("inst", 0)
@@ -260,6 +273,11 @@ class Run:
                         cks = gen.apply_case(true, cks_mode)
                     elif cks_mode == "short":
                         cks, cks_ok = true[:-2], False
+                    elif cks_mode == "lookalike":
+                        cks, cks_ok = gen.lookalike(true, op.get("flip", 0)), False
+                    elif cks_mode == "other":     # the true digest of ANOTHER content of the case
+                        cks = hashlib.new(ca, self.contents[(op["c"] + 1) % len(self.contents)]).hexdigest()
+                        cks_ok = cks == true
                     else:
                         cks, cks_ok = gen.flip_nibble(true, op.get("flip", 0)), False
                     kwargs["checksum"], kwargs["checksum_algorithm"] = cks, cks_algo
@@ -301,8 +319,11 @@ class Run:
                 true = hashlib.new(ca, data).hexdigest()
                 mode = op.get("cks", "right")
                 cks_ok = mode in ("right", "upper", "mixed")
-                cks = true if mode == "right" else gen.apply_case(true, mode) if cks_ok \
-                    else gen.flip_nibble(true, op.get("flip", 0))
+                if mode == "other":
+                    other = hashlib.new(ca, self.contents[(op["c"] + 1) % len(self.contents)]).hexdigest()
+                    cks_ok = other == true
+                cks = other if mode == "other" else true if mode == "right" else gen.apply_case(true, mode) if cks_ok \
+                    else gen.lookalike(true, op.get("flip", 0)) if mode == "lookalike" else gen.flip_nibble(true, op.get("flip", 0))
                 n = len(data)
                 size_mode = op.get("size", "right")
                 if size_mode == "none" or n == 0 and size_mode == "right":
@@ -352,6 +373,18 @@ class Run:
             if op.get("fmt", "-") != "-":
                 call(self.decoy.store_metadata, op["pid"], self.cpaths[op.get("c", 0)], *([op["fmt"]] if op["fmt"] else []))
             call(self.decoy.retrieve_object, op["pid"])
+            r.skipped = True
+            r.out, r.exp = ("ok", None), {"ok": None}
+        elif k == "pidfile":
+            path = self.pidfiles[op["i"]]
+            if op["what"] == "remove":
+                if os.path.isfile(path):
+                    os.remove(path)
+            elif op["what"] == "edit":
+                with open(path, "ab") as f:
+                    f.write(b"edited\n")
+            else:
+                common.write_file(path, b"twin pid file\n")
             r.skipped = True
             r.out, r.exp = ("ok", None), {"ok": None}
         elif k == "reopen":
